@@ -3241,8 +3241,11 @@ impl Zeroconf {
                     }
                 }
             } else {
+                // Our own probes are looped back to us: they are no competitor.
+                let from_myself = intf.addrs.iter().any(|addr| addr.ip() == querier_ip);
+
                 // Simultaneous Probe Tiebreaking (RFC 6762 section 8.2)
-                if qtype == RRType::ANY && msg.num_authorities() > 0 {
+                if qtype == RRType::ANY && msg.num_authorities() > 0 && !from_myself {
                     let probing_name = dns_registry.probing_name(q_name);
                     if let Some(probe) = probing_name
                         .as_ref()
@@ -3256,8 +3259,7 @@ impl Zeroconf {
 
                 // A name that finished probing is ours even if its service is not announced
                 // yet (its other name may still be probing): defend it against other probers.
-                // (Our own probes are looped back to us: a re-registration must not answer itself.)
-                let from_myself = intf.addrs.iter().any(|addr| addr.ip() == querier_ip);
+                // (Not against ourselves: a re-registration must not answer its own probes.)
                 let defending = !from_myself && qtype == RRType::ANY && msg.num_authorities() > 0;
 
                 if qtype == RRType::A || qtype == RRType::AAAA || qtype == RRType::ANY {
